@@ -77,6 +77,32 @@ template<class A> static void equals_event(const typename A::Uri&a,const typenam
   Text ta,tb; std::string ja= real_tostring<A>(a,ta)? jopt_some(ta):"[]", jb= real_tostring<A>(b,tb)? jopt_some(tb):"[]";
   g.event(J().str("e","Equals").num("w",A::W).raw("a",Proj<A>::uri(a)).raw("b",Proj<A>::uri(b)).num("res",res).num("rev",rev).boo("ro",ro).boo("lib",true).raw("ta",ja).raw("tb",jb).str("sa",sa).str("sb",sb).done()); }
 
+
+// reference creation (C10): real uriRemoveBaseUri, then the real uriAddBaseUri of the result against the base
+template<class A> static void removebase_event(const Text&st,const Text&bt,int mode,int ep){
+  auto s=parse_holder<A>(st), b=parse_holder<A>(bt); if(!s->ok||!b->ok) return;
+  g.set_case(J().str("driver","algebra/removebase").raw("s",jtext(st)).raw("b",jtext(bt)).num("mode",mode).num("w",A::W).done());
+  std::string ss=snapshot<A>(s->uri), sb=snapshot<A>(b->uri); RecMM mm; typename A::Uri d; memset(&d,0xA5,sizeof d); int rc;
+  if(ep==1) rc=A::RemoveBaseUriMm(&d,&s->uri,&b->uri,mode?URI_TRUE:URI_FALSE,&mm.mm); else rc=A::RemoveBaseUri(&d,&s->uri,&b->uri,mode?URI_TRUE:URI_FALSE);
+  bool ro = ss==snapshot<A>(s->uri) && sb==snapshot<A>(b->uri);
+  J j; j.str("e","RemoveBase").num("w",A::W).num("ep",ep).raw("s",Proj<A>::uri(s->uri)).raw("b",Proj<A>::uri(b->uri)).num("mode",mode).num("rc",rc).boo("ro",ro).str("ss",show(st)).str("bs",show(bt));
+  if(rc==URI_SUCCESS){ Text t; std::string text= real_tostring<A>(d,t)? jopt_some(t):"[]"; j.raw("ref",Proj<A>::uri(d)).raw("text",text);
+    typename A::Uri back; int rc2=A::AddBaseUri(&back,&d,&b->uri); j.num("backrc",rc2); if(rc2==URI_SUCCESS){ j.raw("back",Proj<A>::uri(back)); } A::FreeUriMembers(&back); }
+  if(ep==1) A::FreeUriMembersMm(&d,&mm.mm); else A::FreeUriMembers(&d);
+  j.num("leak",(long long)(ep==1? mm.outstanding()+(mm.bad?1000:0):0)); mm.release_all();
+  g.event(j.done()); g.count(jtext(st)+"|"+jtext(bt)+std::to_string(mode), st!=bt); }
+
+static std::vector<Text> abs_universe(bool rich){
+  std::vector<const char*> sc={"s:","t:"}, au={"","//h","//u@h","//h:1","//g","//[::1]","//1.2.3.4"}, qs={"","?q"};
+  std::vector<const char*> ph={"","/","/a","/a/b","/a/","/b","/a/c","/a:b","//x","/a//b","/a/b/c","/a/b/","/a//","//","/x/a/b"};
+  std::vector<const char*> pn={"","/","/a","/a/b","/a/","a","a/b","b","a/","a:b/c","/a:b","a//b","a/b/c","/a/c","a/c"};
+  if(rich){ for(const char*x:{"//v@h","//h:2","//H","//[::0:1]","//[v1.a]","//1.2.3.5","//","//h:","//@h","//u@h:1"}) au.push_back(x); qs.push_back("?"); qs.push_back("?r");
+    for(const char*x:{"/a/../b","/.","/a/..","/../a","/a/./b","/a/b/c/d","/a/b//","///","/a:b/c:d","/c/a/b","/a/b/c/","/%61/b"}) ph.push_back(x);
+    for(const char*x:{".","..","../a","a/..","/.//x","a/b/","/a/b/c","a/./b","b:c","/","a/b/c/d","a//"}) pn.push_back(x); }
+  std::vector<Text> out;
+  for(auto s:sc) for(auto a:au) for(auto p:(*a?ph:pn)) for(auto q:qs){ if(!rich && s[0]=='t' && (a[0] && strcmp(a,"//h"))) continue; out.push_back(T(s)+T(a)+T(p)+T(q)); }
+  return out; }
+
 static bool has_pct_dot(const Text&t){ std::string s=show(t); for(auto&c:s) c=(char)tolower(c); return s.find("%2e")!=std::string::npos; }
 
 VH_DRIVER(algebra){
@@ -112,6 +138,19 @@ VH_DRIVER(algebra){
     { const char* segs[]={"",".","..","..","a","b","b:c","...","..a"}; long extra= g.thorough? 100000: 3000;
       for(long i=0;i<extra;++i){ Text r; if(R.below(8)==0) r=T("s:"); if(R.below(6)==0) r.push_back('/'); int n=1+R.below(9); for(int j=0;j<n;++j){ if(j) r.push_back('/'); r=r+T(segs[R.below(9)]); } if(R.below(4)==0) r=r+T("?q");
         const Text&b=bases[R.below((int)bases.size())]; if(b.empty()||b[0]!='s') continue; if(i%2) c09_event<ApiA>(r,b); else c09_event<ApiW>(r,b); } }
+  } else if(mode=="removebase"){
+    std::vector<Text> U=abs_universe(g.thorough); size_t total=U.size()*U.size()*2; double keep= total>(size_t)want? (double)want/total:1.0; long k=0;
+    for(auto&s:U) for(auto&b:U) for(int md=0;md<2;++md){ ++k; if(keep<1.0 && (R.next()%1000000)>=keep*1000000) continue;
+      if(k%2) removebase_event<ApiA>(s,b,md,(int)(k%3==0)); else removebase_event<ApiW>(s,b,md,(int)(k%3==0));
+      if(k%9001==0) g.sample(J().str("source",show(s)).str("base",show(b)).num("mode",md).done()); }
+    // non-absolute operands: the two dedicated error codes
+    for(const char*x:{"//h/a","/a","a","","?q"}) for(const char*y:{"s://h/a","//h/a","a"}) for(int md=0;md<2;++md){ removebase_event<ApiA>(T(x),T(y),md,0); removebase_event<ApiW>(T(y),T(x),md,1); }
+    // longer random paths sharing prefixes of random length
+    { const char* segs[]={"a","b","c","","a:b","%41","x"}; long extra= g.thorough? 150000: 3000; const char* auths[]={"","//h","//h","//u@h:1","//g"};
+      for(long i=0;i<extra;++i){ const char*au=auths[R.below(5)]; Text pre; int np=R.below(5); bool abs=*au||R.below(3)>0; for(int j=0;j<np;++j){ pre=pre+T(segs[R.below(7)]); pre.push_back('/'); }
+        auto tail=[&](){ Text t; int n=R.below(4); for(int j=0;j<n;++j){ if(j) t.push_back('/'); t=t+T(segs[R.below(7)]); } return t; };
+        auto mk=[&](const char*a2){ Text t=T("s:")+T(a2); if(abs) t.push_back('/'); t=t+pre+tail(); if(R.below(4)==0) t=t+T("?q"); return t; };
+        Text s=mk(au), b=mk(R.below(6)==0? auths[R.below(5)] : au); if(i%2) removebase_event<ApiA>(s,b,(int)(i%4<1),(int)(i%3==0)); else removebase_event<ApiW>(s,b,(int)(i%4<1),(int)(i%3==0)); } }
   } else if(mode=="equals"){
     // objects that differ in exactly one component (incl. absent vs empty), plus objects produced by resolution / normalization
     std::vector<Text> pool; for(const char*s:{"s://u@h:1/a/b?q#f","t://u@h:1/a/b?q#f","s://v@h:1/a/b?q#f","s://@h:1/a/b?q#f","s://h:1/a/b?q#f","s://u@g:1/a/b?q#f","s://u@h:2/a/b?q#f","s://u@h:/a/b?q#f","s://u@h/a/b?q#f","s://u@h:1/a/c?q#f","s://u@h:1/a/b/?q#f","s://u@h:1/a?q#f","s://u@h:1?q#f","s://u@h:1/?q#f","s://u@h:1/a/b?r#f","s://u@h:1/a/b?#f","s://u@h:1/a/b#f","s://u@h:1/a/b?q#g","s://u@h:1/a/b?q#","s://u@h:1/a/b?q",
